@@ -5,7 +5,7 @@ from pathlib import Path
 ROOT = Path(__file__).resolve().parent.parent
 BASELINE = "cd /repo && /venv/bin/python -m pytest -ra -q -p no:cacheprovider --timeout=900 --continue-on-collection-errors"
 
-CORE_NOTE = 'Trusted: Lean kernel, standard axioms (SplitRange uses Mathlib linarith); the hand-written Core model is tied to the code by the sampled correspondence (state after every step incl. raw GLPK problem read with swiglpk). Proved for the operations in Core.Op (bounds setters, knock-outs, add/subtract_metabolites on metabolites of the model, objective coefficient / dict, direction, remove_reactions of one reaction with orphans kept, enter/exit); the other public operations (add reactions, removal of several reactions or with orphans, metabolites, boundaries, genes, rule setter, *=, copy, ...) are exercised by the correspondence re-sync and the direct oracle only and are listed per run as oracle_only_ops. Float rounding is not modelled (dyadic inputs).'
+CORE_NOTE = 'Trusted: Lean kernel, standard axioms (SplitRange uses Mathlib linarith); the hand-written Core model is tied to the code by the sampled correspondence (state after every step incl. raw GLPK problem read with swiglpk). Proved for the operations in Core.Op (bounds setters, knock-outs, add/subtract_metabolites on metabolites of the model, objective coefficient / dict, direction, remove_reactions of one reaction with orphans kept, add_reactions of one new reaction over metabolites of the model without a rule, enter/exit); the other public operations (reactions with rules or new metabolites, several at once, removal with orphans, metabolites, boundaries, genes, rule setter, *=, copy, ...) are exercised by the correspondence re-sync and the direct oracle only and are listed per run as oracle_only_ops. Float rounding is not modelled (dyadic inputs).'
 
 LP_NOTE = 'Trusted: Lean kernel, standard axioms (LP lemmas use Mathlib linarith/nlinarith/ring); GLPK/optlang are external and are compared per generated instance with verdicts and optima certified by the proved checker (tolerance 1e-6); harness/exact_lp.py is untrusted (its certificates pass through LPM.checkOpt/checkInfeas/checkUnbdd); the oracle builds the net-flux LP from the model description independently of cobrapy. Small models (<= 11 reactions), integer/dyadic data.'
 
